@@ -2,7 +2,7 @@
 def inv(a, p):
     return pow(a, p - 2, p)
 
-def gen_cases(params, rng, rows_per_w, nrand, widths=(16, 32, 64)):
+def gen_cases(params, rng, rows_per_w, nrand, widths=(16, 32, 64), bfly=True):
     """returns list of (stream, line)"""
     out = []
     for w in widths:
@@ -48,6 +48,17 @@ def gen_cases(params, rng, rows_per_w, nrand, widths=(16, 32, 64)):
                 add("mul:random", "mulmod", pn, x, y); add("mulshoup:random", "mulmod_shoup", x, y)
                 add("muladd:random", "muladd", pn, z, x, y); add("muladdshoup:random", "muladd_shoup", z, x, y)
                 add("cshoup:random word", "compute_shoup", rng.randrange(B))
+            # --- the lazy Harvey butterfly: in-range operands at the edges of [0,2p) and arbitrary words
+            if bfly:
+                for wt in (1, p - 1, R()):
+                    for a in (0, 1, p - 1, p, 2 * p - 1, rng.randrange(2 * p)):
+                        for b in (0, p, 2 * p - 1, a, (2 * p - a) % (2 * p), (2 * p - a - 1) % (2 * p), rng.randrange(2 * p)):
+                            add("bfly:operands on the edges of [0,2p), sums around 2p", "bfly", wt, a, b)
+                for _ in range(nrand):
+                    add("bfly:random in range", "bfly", R(), rng.randrange(2 * p), rng.randrange(2 * p))
+                    add("bfly:wild arbitrary words (vector body = scalar body, no range assumption)", "bfly", R(), rng.randrange(B), rng.randrange(B))
+                for a, b in ((B - 1, B - 1), (B - 1, 0), (0, B - 1), (B // 2, B // 2), (2 * p, 2 * p), (B - 2 * p, 2 * p)):
+                    add("bfly:wild arbitrary words (vector body = scalar body, no range assumption)", "bfly", R(), a, b)
             # --- shoup remainder lands in [p, p + x p / B): model-side search for the conditional-subtraction branch
             hits = 0
             for it in range(400):
